@@ -722,6 +722,15 @@ class C04(Check):
             return None
         if not isinstance(answer, dict):
             return {"expected_from_impl": expected, "model": answer}
+        hyp = answer.get("hyp") or {}
+        if "repsAgree" in hyp:
+            # the hypotheses of second_conversion_stable_partial must hold on the property's space
+            # (outside the input class of F08): evaluated by the model on every such case
+            m = semgen.mrs_from_json(case["m"])
+            if in_space(case["m"], m) is None and not starved_scopes(m):
+                bad = [k for k in ("baseIdsNodup", "rolesOk", "ivSorts", "rstrLinked", "repsAgree") if not hyp.get(k)]
+                if bad:
+                    return {"hypotheses_of_second_conversion_stable_fail": bad}
         a = {k: v for k, v in answer.items() if k != "hyp"}
         for side in (a,):
             if "ok" in side.get("m2", {}):
